@@ -4,6 +4,7 @@
 -/
 import Logg.Drive.C01
 import Logg.Drive.C03
+import Logg.Drive.C07
 import Logg.Drive.C11
 import Logg.Drive.C12
 import Logg.Drive.C16
@@ -25,6 +26,7 @@ def dispatch (st : DriverState) (line : String) : DriverState × String :=
   | "C01" :: rest => let (s, o) := Drive.C01.step st.c01 rest; ({ st with c01 := s }, o)
   | "C03" :: rest => let (s, o) := Drive.C03.step st.c03 rest; ({ st with c03 := s }, o)
   | "C13" :: rest => let (s, o) := Drive.C03.step st.c13 rest; ({ st with c13 := s }, o)
+  | "C07" :: rest => (st, Drive.C07.step rest)
   | "C11" :: rest => let (s, o) := Drive.C11.step st.c11 rest; ({ st with c11 := s }, o)
   | "C12" :: rest => let (s, o) := Drive.C12.step st.c12 rest; ({ st with c12 := s }, o)
   | "C16" :: rest => let (s, o) := Drive.C16.step st.c16 rest; ({ st with c16 := s }, o)
